@@ -105,8 +105,9 @@ fn probe_contexts() -> (Ctx, Ctx) {
     for (k, v) in [("a", RV::Int(3)), ("x", RV::Float(2.5)), ("b", RV::Bool(true)), ("s", RV::Str("äb".into()))] {
         m.vars.insert(k.to_string(), v);
     }
-    m.funs.insert("f".into(), FnModel::Identity);
+    m.funs.insert("f".into(), FnModel::Nested);
     m.funs.insert("t".into(), FnModel::IntMap);
+    m.funs.insert("nest".into(), FnModel::Nested);
     let c1 = api::ctx_from_model(&m, &log);
     let mut m2 = Model::new();
     m2.builtins_off = true;
